@@ -135,8 +135,10 @@ fn search_path(rng: &mut Rng, stats: &mut Stats) {
     for k in 0..n {
         let (a, b) = (Coord2(rng.r(0.0, 100.0), rng.r(0.0, 100.0)), Coord2(rng.r(0.0, 100.0), rng.r(0.0, 100.0)));
         // sometimes a zero-length (point) segment: its box has min = max and is skipped by union_bounds
-        let e = if rng.i(5) == 0 { pos } else { Coord2(rng.r(0.0, 100.0), rng.r(0.0, 100.0)) };
-        if e == pos { pts.push((pos, pos, pos)); } else { pts.push((a, b, e)); }
+        let kind = rng.i(6);
+        let e = if kind <= 1 { pos } else { Coord2(rng.r(0.0, 100.0), rng.r(0.0, 100.0)) };
+        // kind 0: a zero-length section; kind 1: a section that returns to its own start (teardrop): not empty although its end points coincide
+        if kind == 0 { pts.push((pos, pos, pos)); } else { pts.push((a, b, e)); }
         pos = e;
         let _ = k;
     }
@@ -158,6 +160,36 @@ fn search_path(rng: &mut Rng, stats: &mut Stats) {
     if pf.min() != fmn || pf.max() != fmx { stats.fail("C06", "path_fast_box_not_union", &format!("{} got={:?} want={:?}", desc, pf, (fmn, fmx))); }
 }
 
+/// the edges of a path graph are curves too (graph_path/edge.rs overrides the boxes): every edge, in its forward and in its reversed
+/// direction, must have the boxes of the plain curve with the same control points
+fn search_graph_edges(rng: &mut Rng, stats: &mut Stats) {
+    use flo_curves::bezier::path::{GraphPath, PathLabel, GraphEdge};
+    let n = 2 + rng.i(5) as usize;
+    let start = Coord2(rng.r(0.0, 100.0), rng.r(0.0, 100.0));
+    let mut pts = vec![];
+    for k in 0..n {
+        let e = if k + 1 == n { start } else { Coord2(rng.r(0.0, 100.0), rng.r(0.0, 100.0)) };
+        pts.push((Coord2(rng.r(0.0, 100.0), rng.r(0.0, 100.0)), Coord2(rng.r(0.0, 100.0), rng.r(0.0, 100.0)), e));
+    }
+    let path: SimpleBezierPath = (start, pts);
+    let desc = format!("graph of path={:?}", path);
+    stats.case(&desc, true);
+    stats.count("graph_edges");
+    let g = GraphPath::from_path(&path, PathLabel(0));
+    let mut edges: Vec<(GraphEdge<'_, Coord2, PathLabel>, &str)> = g.all_edges().map(|e| (e, "forward")).collect();
+    for i in 0..g.num_points() { for e in g.reverse_edges_for_point(i) { edges.push((e, "reversed")); } }
+    for (e, dir) in edges {
+        let plain: Curve<Coord2> = Curve::from_curve(&e);
+        let size = [plain.start_point(), plain.control_points().0, plain.control_points().1, plain.end_point()].iter().fold(0.0f64, |m, p| m.max(p.0.abs()).max(p.1.abs()));
+        let tol = 1e-9 * size;
+        let (be, bp): (Bounds<Coord2>, Bounds<Coord2>) = (e.bounding_box(), plain.bounding_box());
+        let (fe, fp): (Bounds<Coord2>, Bounds<Coord2>) = (e.fast_bounding_box(), plain.fast_bounding_box());
+        let far = |a: Coord2, b: Coord2| gt((a.0 - b.0).abs(), tol) || gt((a.1 - b.1).abs(), tol);
+        if far(be.min(), bp.min()) || far(be.max(), bp.max()) { stats.fail("C06", &format!("graph_edge_bounding_box.{}", dir), &format!("{} edge={:?} box={:?} box of the same curve={:?}", desc, plain, be, bp)); }
+        if far(fe.min(), fp.min()) || far(fe.max(), fp.max()) { stats.fail("C06", &format!("graph_edge_fast_bounding_box.{}", dir), &format!("{} edge={:?} box={:?} box of the same curve={:?}", desc, plain, fe, fp)); }
+    }
+}
+
 pub fn search(seed: u64, n: u64) {
     let mut rng = Rng(seed ^ 0x5EA2C06);
     let mut stats = Stats::new();
@@ -166,7 +198,7 @@ pub fn search(seed: u64, n: u64) {
             0 | 1 | 2 => search_dim::<f64>(&mut rng, &mut stats),
             3 | 4 => search_dim::<Coord2>(&mut rng, &mut stats),
             5 | 6 => search_dim::<Coord3>(&mut rng, &mut stats),
-            _ => search_path(&mut rng, &mut stats),
+            _ => if rng.b() { search_path(&mut rng, &mut stats) } else { search_graph_edges(&mut rng, &mut stats) },
         }
     }
     stats.print("C06", "search");
